@@ -515,6 +515,20 @@ func mdaGenOp(r *RNG, out *Out) string {
 			arg = mdaHex(mdaGenName(r))
 		}
 		out.Count("op:derive:" + k)
+		if r.Chance(50) {
+			// a valid parent of a type the derivation is documented for (parts -> address must succeed)
+			kinds := []string{"scope", "session", "record"}
+			if k == "rspec" || k == "cspec" {
+				kinds = []string{"cspec", "rspec"}
+			}
+			pk := Pick(r, kinds)
+			b := append([]byte{mdaKindByte[pk]}, mdaGenUUID(r)...)
+			if pk != "scope" && pk != "cspec" {
+				b = append(b, mdaGenUUID(r)...)
+			}
+			out.Count("derive:valid-parent:" + pk)
+			return "derive " + mdaHex(b) + " " + k + " " + arg
+		}
 		return "derive " + mdaHex(mdaGenBytes(r, out)) + " " + k + " " + arg
 	case x < 90:
 		ix := Pick(r, []string{"as", "ss", "ap", "cp", "ac", "nav"})
